@@ -8,6 +8,9 @@ Not decided: closure, isometry and permutation correctness (numerical search ove
   * operator kinds: the Cartesian rotation of a generated operation is lattice . rot . inverse-lattice in that
     order, products/inverses of operations compose integer rotations with integer rotations and Cartesian with
     Cartesian, and the translation is transformed by the integer rotation (unit-cell coordinates);
+  * ownership: nothing ``Crystal.__init__`` stores shares storage with the caller's lattice / basis / spins / chemistry
+    (the symmetry group, metric and inverse lattice are computed once: an aliased lattice edited later leaves a crystal whose
+    operations are no longer isometries of its own lattice);
   * operator side: wherever a rotation multiplies a vector or tensor (vector spins in gengroup, directions, positions,
     eigenvectors) it is the left factor, or is transposed on the right -- ``np.dot(v, R)`` applies the inverse operation.
 """
@@ -15,7 +18,7 @@ import ast
 
 from ..model import AnalysisError, unparse, walk_local
 from ..engines import coordkind
-from ._common import dim_generic, names_and_calls_resolve, groupop_composition_order, rotations_from_left
+from ._common import dim_generic, names_and_calls_resolve, groupop_composition_order, rotations_from_left, ctor_copies_arguments
 
 SCOPE = [('crystal', 'maptranslation'), ('crystal', 'GroupOp.'), ('crystal', 'Crystal.__init__'),
          ('crystal', 'Crystal.gengroup'), ('crystal', 'Crystal.genpoint'), ('crystal', 'Crystal.genWyckoffsets'),
@@ -88,6 +91,8 @@ def run(model, rep, tier):
     groupop_composition_order(model, rep)
     # rotations (of spins, directions, positions, eigenvectors) act from the left throughout crystal.py
     rotations_from_left(model, rep, [('crystal', '')], min_instances=12)
+    # the crystal owns its data: the group is computed once, from the values at construction
+    ctor_copies_arguments(model, rep, 'crystal', 'Crystal', ['lattice', 'basis', 'spins', 'chemistry'])
     # NOSYM branch goes through GroupOp.ident with the crystal's own basis
     init = model.func('crystal', 'Crystal.__init__')
     ns = [x for x in walk_local(init) if isinstance(x, ast.If) and unparse(x.test) == 'NOSYM']
@@ -115,6 +120,8 @@ BREAKERS = [
 ]
 BREAKERS.append(('onsager/crystal.py', "else np.dot(cartrot, s)", "else np.dot(s, cartrot)", 'operator-side'))
 BREAKERS.append(('onsager/crystal.py', "return np.dot(g.cartrot, direc)", "return np.dot(direc, g.cartrot)", 'operator-side'))
+BREAKERS.append(('onsager/crystal.py', "            self.lattice = np.array(lattice)\n", "            self.lattice = np.asarray(lattice, dtype=float)\n", 'constructor-copies-arguments'))
+BREAKERS.append(('onsager/crystal.py', "            self.basis = [[incell(u) for u in basis]]", "            self.basis = [basis]", 'constructor-copies-arguments'))
 NEUTRALS = [
     ('onsager/crystal.py', "origin = np.zeros(self.dim, dtype=int)", "origin = np.zeros(len(self.lattice), dtype=int)"),
     ('onsager/crystal.py', "return np.dot(g.cartrot, direc)", "return np.dot(direc, g.cartrot.T)"),
